@@ -269,6 +269,52 @@ static void sub_exhaustive() {
     vf::obs_set("exhaustive_space", "every (row partition, column partition) pair of an n x k matrix, n,k <= " + std::to_string(full) + " (strided sample up to 6), ranks <= 4");
 }
 
+//---------------------------------------------------------------------------
+// Large-interface cases: ONE neighbour requests >= 1500 rows from one rank, so that the per-neighbour messages of remote_rows / product
+// (row widths, columns, values) exceed the eager limit of the transport (4 KiB on the shared-memory BTL) and are delivered by the
+// rendezvous path, i.e. read from the sender's buffer after MPI_Isend has returned.  Two ranks (a, b) own `big` rows each and every row of
+// one couples to a distinct row of the other; the remaining ranks own a handful of rows.  Integer data, exact oracles; the matrices are far too
+// large for the dense references of check_all, so remote_rows is checked rank-locally against the global B and the product against a sparse
+// exact reference.
+static void check_large(Case &c, Rng &r, int ra, int rb, long big) {
+    mpi::communicator comm(g_world); Bag bag(g_world); const int me = g_rank;
+    Part rn(g_size + 1, 0); for (int q = 0; q < g_size; ++q) rn[q + 1] = rn[q] + ((q == ra || q == rb) ? big : r.range(0, 12)); const long N = rn[g_size];
+    std::vector<ptrdiff_t> pa(big), pb(big); for (long t = 0; t < big; ++t) pa[t] = pb[t] = t; r.shuffle(pa); r.shuffle(pb);
+    auto ival = [&]() { double v = (double)r.range(1, 5); return r.coin() ? v : -v; };
+    std::vector<std::tuple<ptrdiff_t, ptrdiff_t, double>> ta, tb;
+    for (long i = 0; i < N; ++i) { int owner = 0; while (i >= rn[owner + 1]) ++owner;
+        if (owner == ra) ta.emplace_back(i, rn[rb] + pa[i - rn[ra]], ival()); else if (owner == rb) ta.emplace_back(i, rn[ra] + pb[i - rn[rb]], ival());
+        if (r.coin(0.5)) ta.emplace_back(i, i, ival()); if (r.coin(0.3)) ta.emplace_back(i, r.range(0, N - 1), ival()); }
+    long m = r.range(20, 60); for (long i = 0; i < N; ++i) { int w = (int)r.range(1, 3); for (int q = 0; q < w; ++q) tb.emplace_back(i, r.range(0, m - 1), ival()); }
+    Csr<double> G = vf::from_triplets<double>(N, N, ta), H = vf::from_triplets<double>(N, m, tb); Part rm = vfm::random_part(m, g_size, r);
+    try {
+        auto A = make_dm(comm, G, rn, rn), B = make_dm(comm, H, rn, rm);
+        long req = 0; for (size_t i = 0; i < A->cpat().recv.nbr.size(); ++i) req = std::max<long>(req, A->cpat().recv.ptr[i + 1] - A->cpat().recv.ptr[i]);
+        bag.add(T_SCAL, 1, me, (double)req);
+        bag.add(T_ERR, E_A, me, vfm::dm_local_check(*A, rn[me + 1] - rn[me], rn[me + 1] - rn[me], rn[me], N));
+        bag.add(T_ERR, E_RROWS, me, check_remote_rows(*A, *B, H, true)); bag.add(T_ERR, E_RROWS_NV, me, check_remote_rows(*A, *B, H, false));
+        auto C = mpi::product(*A, *B);
+        bag.add(T_ERR, E_C, me, vfm::dm_local_check(*C, rn[me + 1] - rn[me], rm[me + 1] - rm[me], rm[me], m)); vfm::bag_dm(bag, T_C, *C, rn[me]);
+        auto T = mpi::transpose(*A); bag.add(T_ERR, E_T, me, vfm::dm_local_check(*T, rn[me + 1] - rn[me], rn[me + 1] - rn[me], rn[me], N)); vfm::bag_dm(bag, T_T, *T, rn[me]);
+        bag.add(T_ERR, E_THROW, me, 0);
+    } catch (const std::exception &e) { c.fail("exception:distributed_matrix", e.what()); bag.add(T_ERR, E_THROW, me, 1); }
+    bag.collect(); if (me) return;
+    for (auto rec : bag.with(T_ERR)) { long id = rec->i; int code = (int)rec->v[0]; bool structural = id == E_A || id == E_C || id == E_T;
+        c.check(code == 0, std::string(ename(id)) + (structural ? std::string(":malformed:") + vfm::dm_err(code) : std::string(":rank-local")), "rank-local oracle failed (large interface)", J().n("rank", rec->j).n("code", code)); }
+    long maxreq = 0; for (auto rec : bag.with(T_SCAL)) maxreq = std::max<long>(maxreq, (long)rec->v[0]);
+    c.check(maxreq >= 1500, "harness:large-interface-too-small", "no neighbour requests 1500 rows", J().n("max_rows_requested", maxreq)); vf::obs_max("max_rows_requested_by_one_neighbour", (double)maxreq);
+    // exact sparse references
+    std::map<std::pair<long, long>, long double> rc, rt;
+    for (long i = 0; i < N; ++i) for (auto ja = G.ptr[i]; ja < G.ptr[i + 1]; ++ja) { rt[{(long)G.col[ja], i}] = G.val[ja]; auto k = G.col[ja]; for (auto jb = H.ptr[k]; jb < H.ptr[k + 1]; ++jb) rc[{i, (long)H.col[jb]}] += (long double)G.val[ja] * H.val[jb]; }
+    auto cmp = [&](const std::string &what, int tag, long rows, long cols, const std::map<std::pair<long, long>, long double> &ref) { vfm::Assembled a = vfm::assemble(bag, tag, rows, cols);
+        c.check(a.dups == 0 && a.out_of_range == 0, what + ":duplicate-entry", "duplicate or out-of-range entries in the gathered result (large interface)", J().n("dups", a.dups).n("range", a.out_of_range));
+        bool pat = a.e.size() == ref.size(), val = true; for (auto &kv : a.e) { auto it = ref.find(kv.first); if (it == ref.end()) { pat = false; continue; } if (!((long double)kv.second[0] == it->second)) val = false; }
+        c.check(pat, what + ":pattern", "assembled pattern differs from the serial definition (large interface)", J().n("entries", a.e.size()).n("expected", ref.size()));
+        c.check(val, what + ":value", "integer-valued result differs from the exact serial value (large interface)"); };
+    cmp("product", T_C, N, m, rc); cmp("transpose", T_T, N, N, rt);
+    vf::obs_sum("large_interface_cases");
+}
+
 static void sub_random() {
     long N = vf::tier(80, 500);
     for (long idx = 0; idx < N; ++idx) {
@@ -284,6 +330,15 @@ static void sub_random() {
         if (G.nnz() && H.nnz()) c.nontrivial();
         int empties = 0; for (int q = 0; q < g_size; ++q) if (rn[q + 1] == rn[q]) ++empties; if (empties) vf::obs_sum("cases_with_empty_ranks");
         vf::sample("random_r" + std::to_string(g_size), J().n("ranks", g_size).n("n", n).n("k", k).n("m", m).n("nnzA", G.nnz()).bl("exact", exact).s("rows", vfm::part_str(rn)).s("inner", vfm::part_str(rk)), 1);
+    }
+    // large-interface cases (>= 2 ranks), same sub-check, indices N, N+1, ...
+    long L = g_size > 1 ? vf::opt_int("large_cases", vf::tier(3, 10)) : 0;
+    for (long idx = N; idx < N + L; ++idx) {
+        if (!vf::selected("random", idx)) continue;
+        Rng r(vf::case_seed("random", idx)); vfm::seed_delays(vf::case_seed("random", idx), g_rank);
+        int ra = (int)r.range(0, g_size - 1), rb = (int)r.range(0, g_size - 2); if (rb >= ra) ++rb; long big = r.range(1500, 2600);
+        Case c("random", idx, J().n("ranks", g_size).s("family", "large-interface").n("rows_per_big_rank", big).n("rank_a", ra).n("rank_b", rb).bl("exact", true));
+        check_large(c, r, ra, rb, big); c.nontrivial();
     }
 }
 
